@@ -171,6 +171,12 @@ class PyCodegen(Stringifier):
         """
         return self.format_line(str(o.text).lstrip())
 
+    def visit_CycleStmt(self, o, **kwargs):  # pylint: disable=unused-argument
+        return self.format_line('continue')
+
+    def visit_ExitStmt(self, o, **kwargs):  # pylint: disable=unused-argument
+        return self.format_line('break')
+
     def visit_Comment(self, o, **kwargs):  # pylint: disable=unused-argument
         """
         Format comments.
